@@ -633,6 +633,14 @@ pub fn parse_maybe_bare(
     resolve_expression(diagnostics, context.path_converter, &node)
 }
 
+/// Verification hook: exposes the private fileset expression parser
+/// (`parse_program`, `parse_program_or_bare_string`, `expand_aliases` and the
+/// AST types) so that its output can be observed directly.
+#[cfg(jj_vcs_jj_verif)]
+pub mod verif_fileset_parser {
+    pub use crate::fileset_parser::*;
+}
+
 #[cfg(test)]
 mod tests {
     use std::path::PathBuf;
